@@ -5,6 +5,7 @@ package vh
 // families for spec/cli/PromTrace.tla.
 
 import (
+	"fmt"
 	"math"
 	"path/filepath"
 	"sort"
@@ -53,11 +54,18 @@ func TestDrv_C20(t *testing.T) {
 							lat = time.Duration(math.Exp(math.Log(1e3) + r.Float64()*(math.Log(29e9)-math.Log(1e3))))
 						}
 						e := []string{"", "", "connection refused", "context deadline exceeded", "EOF"}[r.Intn(5)]
+						if cases%4 == 1 && e != "" { // many distinct failure messages
+							e = fmt.Sprintf("dial tcp 10.0.%d.%d:80: connect: connection refused", r.Intn(3), r.Intn(40))
+						}
 						few := 2
 						if cases%3 == 0 {
 							few = 1 // few label sets: each series sees many results
 						}
-						rs[i] = vegeta.Result{Method: []string{"GET", "POST"}[r.Intn(few)], URL: []string{"http://a/", "http://b/x?y=1"}[r.Intn(few)],
+						urls := []string{"http://a/", "http://b/x?y=1"}
+						if cases%4 == 2 { // many label sets
+							urls = []string{fmt.Sprintf("http://h%d/", r.Intn(40)), fmt.Sprintf("http://a/p/%d", r.Intn(40))}
+						}
+						rs[i] = vegeta.Result{Method: []string{"GET", "POST"}[r.Intn(few)], URL: urls[r.Intn(few)],
 							Code: []uint16{200, 404, 0, 500}[r.Intn(2*few)], BytesIn: uint64(r.Intn(1 << 20)), BytesOut: uint64(r.Intn(1 << 10)), Latency: lat, Error: e}
 					}
 					observe := func(x *vegeta.Result) {
